@@ -44,6 +44,10 @@ def run(tier, seed):
     g_items, g_asts = c01.gen_items(rng, 200 if quick else 500, c01.FEATURES, levels=('-O1',))
     items += g_items
     asts += g_asts
+    from props import enumfam
+    e_items, e_asts, e_info = enumfam.slice_(tier, seed)
+    items += e_items
+    asts += e_asts
     progs = runner.compile_programs(items, want=('machine', 'codegen'))
     pairs = [(p, a) for p, a in zip(progs, asts) if p.ok]
     verdicts = collections.Counter((p.name.split(':')[0], p.res['outcome']) for p in progs)
@@ -63,7 +67,7 @@ def run(tier, seed):
         'states': st['states'], 'transitions': st['transitions'], 'traces_validated_against_impl': len(pairs),
         'samples': [{'source': c['p'].src, 'symbols': c['syms']} for c in cases[:2]],
         'programs_generated': len(items), 'programs_accepted': len(pairs), 'verdicts': {'%s/%s' % k: v for k, v in verdicts.items()},
-        'ambiguous_accepted': namb, 'exhaustive': False,
+        'ambiguous_accepted': namb, 'exhaustive': False, 'enumerated_family': enumfam.describe(e_info, sum(1 for p in progs[-len(e_items):] if p.ok)),
         'rule': 'statement pairs A;B with lookahead-terminated A, greedy cases with shared finishing strings and drawn priorities, case pattern sets, general programs; every reachable decision point x every symbol cell',
     }
     chk.assumptions = ['OP3: else clauses, wait skipping and catch handlers are fall-backs, not competing continuations']
